@@ -33,7 +33,7 @@ man = dict(
                source_commits=HOOK_COMMITS, add_only=True),
     engines=[
         dict(name="lean-model", path="lean/", serves_properties=sorted(claimed), kind_free_text="Lean 4 model, theorems (Props/*.lean) and core-only model driver"),
-        dict(name="extract", path="extract/", serves_properties=sorted(claimed), kind_free_text="Go AST fact extractor regenerating lean/OutlineModel/Gen/*.lean on every run"),
+        dict(name="extract", path="extract/", serves_properties=sorted(claimed), kind_free_text="Go fact extractor (typed AST) and Go-to-Lean translator (golean.go: replay.go, natconn deadlines, RequirePublicIP, GetIPInfoFromIP, tunnelTimeMetrics) regenerating lean/OutlineModel/Gen/*.lean on every run"),
         dict(name="harness", path="harness/", serves_properties=sorted(claimed), kind_free_text="Go correspondence harness driving the real code in-process; property oracles"),
     ],
     checks=checks,
